@@ -133,7 +133,7 @@ theorem create_rec {s s' : St} {u k i m a b c el : Nat} {soft : Bool} (h : creat
           · cases h; exact ⟨rfl, rfl, rfl, rfl, rfl, rfl⟩
 
 theorem close_some {s s' : St} {who : Who} {slot : Nat} (h : close s who slot = some s') :
-    ∃ act, s.acts slot = some act ∧ slot < NSLOTS ∧ (who = .user act.owner ∨ (who = .keeper ∧ act.state ≠ 0)) ∧
+    ∃ act, s.acts slot = some act ∧ slot < NSLOTS ∧ (who = .user act.owner ∨ (who = .keeper ∧ act.state ≠ 0)) ∧ act.owner < 2 ∧
       s' = setAct (setUser s act.owner
         ({ (s.users act.owner) with long := (s.users act.owner).long + act.escLong,
                                      short := (s.users act.owner).short + act.escShort,
@@ -147,8 +147,10 @@ theorem close_some {s s' : St} {who : Who} {slot : Nat} (h : close s who slot = 
     | some act =>
       simp only [ha] at h
       by_cases hal : who = .user act.owner ∨ (who = .keeper ∧ act.state ≠ 0)
-      · simp only [hal, not_true_eq_false, if_false, Option.some.injEq] at h
-        exact ⟨act, rfl, by omega, hal, h.symm⟩
+      · by_cases ho : act.owner ≥ NUSERS
+        · simp [hal, ho] at h
+        · simp only [hal, not_true_eq_false, ho, or_self, if_false, Option.some.injEq] at h
+          exact ⟨act, rfl, by omega, hal, by unfold NUSERS at ho; omega, h.symm⟩
       · simp [hal] at h
 
 theorem exec_ok {s s' : St} {who : Who} {slot fee x y z paid : Nat} {throw fail : Bool} {o : Outcome}
@@ -309,7 +311,7 @@ theorem step_ok (s : St) (op : Op) (hr : RecOK s) (hs : SupplyOK s) : RecOK (ste
     cases h : close s who slot with
     | none => exact ⟨hr, hs⟩
     | some s' =>
-      obtain ⟨act, _, _, _, rfl⟩ := close_some h
+      obtain ⟨act, _, _, _, _, rfl⟩ := close_some h
       exact ⟨hr, hs⟩
   | screate who i a b c el =>
     simp only [step]
@@ -352,6 +354,269 @@ theorem exec_done {s s' : St} {who : Who} {slot fee x y z paid : Nat} {throw fai
   · rcases complete_some hc with ⟨_, rfl⟩ | ⟨_, _, _, _, _, _, _, rfl⟩
     · exact ⟨_, acts_setAct_same _ _ _, by simp⟩
     · exact ⟨_, acts_setAct_same _ _ _, by simp⟩
+
+
+@[simp] theorem addMt_glv (x : User) (m a : Nat) : (x.addMt m a).glv = x.glv := by unfold User.addMt; split <;> rfl
+@[simp] theorem addMt_long (x : User) (m a : Nat) : (x.addMt m a).long = x.long := by unfold User.addMt; split <;> rfl
+@[simp] theorem addMt_short (x : User) (m a : Nat) : (x.addMt m a).short = x.short := by unfold User.addMt; split <;> rfl
+@[simp] theorem subMt_glv (x : User) (m a : Nat) : (x.subMt m a).glv = x.glv := by unfold User.subMt; split <;> rfl
+@[simp] theorem subMt_long (x : User) (m a : Nat) : (x.subMt m a).long = x.long := by unfold User.subMt; split <;> rfl
+@[simp] theorem subMt_short (x : User) (m a : Nat) : (x.subMt m a).short = x.short := by unfold User.subMt; split <;> rfl
+
+/-! ### global per-mint totals: folds over the finite user and slot lists -/
+
+theorem sum_map_update {α : Type} (f : Nat → α) (g : α → Nat) (k : Nat) (v : α) :
+    ∀ (l : List Nat), l.Nodup → k ∈ l →
+      (l.map (fun i => g (if i = k then v else f i))).sum + g (f k) = (l.map (fun i => g (f i))).sum + g v := by
+  intro l
+  induction l with
+  | nil => intro _ h; cases h
+  | cons a l ih =>
+    intro hnd hk
+    have hnd' := (List.nodup_cons.1 hnd)
+    simp only [List.map_cons, List.sum_cons]
+    by_cases hka : a = k
+    · subst hka
+      have hunch : l.map (fun i => g (if i = a then v else f i)) = l.map (fun i => g (f i)) := by
+        apply List.map_congr_left
+        intro i hi
+        have : i ≠ a := fun e => hnd'.1 (e ▸ hi)
+        simp [this]
+      simp only [if_true, hunch]; omega
+    · have hkl : k ∈ l := by
+        rcases List.mem_cons.1 hk with h | h
+        · exact absurd h.symm hka
+        · exact h
+      have := ih hnd'.2 hkl
+      simp only [hka, if_false]; omega
+
+def usersL : List Nat := [0, 1]
+def slotsL : List Nat := [0, 1, 2, 3, 4, 5, 6, 7]
+
+/-- total of a user field over all users -/
+def sumU (users : Nat → User) (g : User → Nat) : Nat := (usersL.map (fun u => g (users u))).sum
+/-- total of an escrow field over all slots -/
+def sumA (acts : Nat → Option Act) (g : Option Act → Nat) : Nat := (slotsL.map (fun k => g (acts k))).sum
+
+theorem sumU_update (users : Nat → User) (g : User → Nat) (u : Nat) (x : User) (hu : u < 2) :
+    sumU (fun i => if i = u then x else users i) g + g (users u) = sumU users g + g x := by
+  unfold sumU
+  exact sum_map_update users g u x usersL (by decide) (by unfold usersL; simp; omega)
+
+theorem sumA_update (acts : Nat → Option Act) (g : Option Act → Nat) (k : Nat) (x : Option Act) (hk : k < 8) :
+    sumA (fun i => if i = k then x else acts i) g + g (acts k) = sumA acts g + g x := by
+  unfold sumA
+  exact sum_map_update acts g k x slotsL (by decide) (by unfold slotsL; simp; omega)
+
+def eLong : Option Act → Nat | some a => a.escLong | none => 0
+def eShort : Option Act → Nat | some a => a.escShort | none => 0
+def eGlv : Option Act → Nat | some a => a.escGlv | none => 0
+
+/-- all long tokens: users + escrows + the (shared) market vault -/
+def totalLong (s : St) : Nat := sumU s.users (·.long) + sumA s.acts eLong + s.vaultLong
+def totalShort (s : St) : Nat := sumU s.users (·.short) + sumA s.acts eShort + s.vaultShort
+/-- all GLV tokens in existence according to the holders: users + escrows -/
+def heldGlv (s : St) : Nat := sumU s.users (·.glv) + sumA s.acts eGlv
+
+/-- the ledger identities: collateral is conserved, and the GLV supply is exactly what users and escrows hold -/
+structure Ledger (L S : Nat) (s : St) : Prop where
+  long : totalLong s = L
+  short : totalShort s = S
+  glv : s.glvBurned + heldGlv s = s.glvMinted
+
+theorem ledger_init (l sh : Nat) (now : Int) : Ledger (l + l) (sh + sh) (init l sh now) := by
+  refine ⟨?_, ?_, ?_⟩ <;> simp [init, totalLong, totalShort, heldGlv, sumU, sumA, usersL, slotsL, eGlv, eLong, eShort]
+
+/-- totals after replacing one user and one slot, everything else about the sums untouched -/
+theorem totals_set (s : St) (u k : Nat) (X : User) (A : Option Act) (hu : u < 2) (hk : k < 8) (g : User → Nat) (e : Option Act → Nat) :
+    sumU (setAct (setUser s u X) k A).users g + g (s.users u) = sumU s.users g + g X ∧
+    sumA (setAct (setUser s u X) k A).acts e + e (s.acts k) = sumA s.acts e + e A :=
+  ⟨sumU_update s.users g u X hu, sumA_update s.acts e k A hk⟩
+
+theorem create_some {s s' : St} {u k i m a b c el : Nat} {soft : Bool} (h : create s u k i m a b c soft el = some s') :
+    u < 2 ∧ k < 2 ∧ i < 2 ∧ m < 2 ∧ s.acts (slotOf u k i) = none ∧
+    ((k = 0 ∧ a ≤ (s.users u).mt m ∧ b ≤ (s.users u).long ∧ c ≤ (s.users u).short ∧
+        s' = setAct (setUser s u ({ (s.users u) with long := (s.users u).long - b, short := (s.users u).short - c }.subMt m a)) (slotOf u k i)
+          (some ⟨u, 0, m, 0, b, c, a, 0, s.now, el, soft⟩)) ∨
+     (k = 1 ∧ a ≤ (s.users u).glv ∧
+        s' = setAct (setUser s u { (s.users u) with glv := (s.users u).glv - a }) (slotOf u k i)
+          (some ⟨u, 1, m, 0, 0, 0, 0, a, s.now, el, soft⟩))) := by
+  unfold create at h
+  by_cases h0 : u ≥ NUSERS ∨ k ≥ 2 ∨ i ≥ 2 ∨ m ≥ 2
+  · simp [h0] at h
+  · rw [if_neg h0] at h
+    have hb : u < 2 ∧ k < 2 ∧ i < 2 ∧ m < 2 := by unfold NUSERS at h0; omega
+    cases ha : s.acts (slotOf u k i) with
+    | some _ => simp [ha] at h
+    | none =>
+      simp only [ha] at h
+      by_cases h1 : el < MIN_EXEC_LAMPORTS
+      · simp [h1] at h
+      · rw [if_neg h1] at h
+        by_cases hk : k = 0
+        · rw [if_pos hk] at h
+          by_cases hc : (a = 0 ∧ b = 0 ∧ c = 0) ∨ (s.users u).mt m < a ∨ (s.users u).long < b ∨ (s.users u).short < c
+          · simp [hc] at h
+          · simp only [hc, if_false, Option.some.injEq] at h
+            exact ⟨hb.1, hb.2.1, hb.2.2.1, hb.2.2.2, rfl, Or.inl ⟨hk, by omega, by omega, by omega, h.symm⟩⟩
+        · rw [if_neg hk] at h
+          by_cases hc : a = 0 ∨ b ≠ 0 ∨ c ≠ 0 ∨ (s.users u).glv < a
+          · simp [hc] at h
+          · simp only [hc, if_false, Option.some.injEq] at h
+            exact ⟨hb.1, hb.2.1, hb.2.2.1, hb.2.2.2, rfl, Or.inr ⟨by omega, by omega, h.symm⟩⟩
+
+theorem slotOf_lt {u k i : Nat} (hu : u < 2) (hk : k < 2) (hi : i < 2) : slotOf u k i < 8 := by unfold slotOf; omega
+
+/-- the workhorse: a state whose users differ from `s` at most at `u` (now `X`) and whose slots differ at most at `k`
+(now `A`) keeps the ledger identities provided the LOCAL balance equations hold -/
+theorem ledger_of {L S : Nat} {s : St} (hl : Ledger L S s) (s' : St) (u k : Nat) (X : User) (A : Option Act)
+    (hu : u < 2) (hk : k < 8)
+    (husers : s'.users = fun i => if i = u then X else s.users i)
+    (hacts : s'.acts = fun i => if i = k then A else s.acts i)
+    (h1 : X.long + eLong A + s'.vaultLong = (s.users u).long + eLong (s.acts k) + s.vaultLong)
+    (h2 : X.short + eShort A + s'.vaultShort = (s.users u).short + eShort (s.acts k) + s.vaultShort)
+    (h3 : s'.glvBurned + X.glv + eGlv A + s.glvMinted = s.glvBurned + (s.users u).glv + eGlv (s.acts k) + s'.glvMinted) :
+    Ledger L S s' := by
+  obtain ⟨l1, l2, l3⟩ := hl
+  have a1 := sumU_update s.users (fun x => x.long) u X hu
+  have a2 := sumU_update s.users (fun x => x.short) u X hu
+  have a3 := sumU_update s.users (fun x => x.glv) u X hu
+  have b1 := sumA_update s.acts eLong k A hk
+  have b2 := sumA_update s.acts eShort k A hk
+  have b3 := sumA_update s.acts eGlv k A hk
+  unfold totalLong at l1
+  unfold totalShort at l2
+  unfold heldGlv at l3
+  refine ⟨?_, ?_, ?_⟩
+  · unfold totalLong; rw [husers, hacts]; omega
+  · unfold totalShort; rw [husers, hacts]; omega
+  · unfold heldGlv; rw [husers, hacts]; omega
+
+theorem ledger_create {L S : Nat} {s s' : St} {u k i m a b c el : Nat} {soft : Bool} (hl : Ledger L S s)
+    (h : create s u k i m a b c soft el = some s') : Ledger L S s' := by
+  obtain ⟨hu, hk, hi, _, hnone, hcase⟩ := create_some h
+  have hs := slotOf_lt hu hk hi
+  rcases hcase with ⟨_, _, hb, hc, rfl⟩ | ⟨_, ha, rfl⟩
+  · refine ledger_of hl _ u (slotOf u k i) _ _ hu hs rfl rfl ?_ ?_ ?_ <;>
+      simp only [setAct, setUser, hnone, eLong, eShort, eGlv, subMt_long, subMt_short, subMt_glv] <;> omega
+  · refine ledger_of hl _ u (slotOf u k i) _ _ hu hs rfl rfl ?_ ?_ ?_ <;>
+      simp only [setAct, setUser, hnone, eLong, eShort, eGlv] <;> omega
+
+theorem users_id (s : St) (u : Nat) : s.users = fun i => if i = u then s.users u else s.users i := by
+  funext i; by_cases h : i = u <;> simp [h]
+theorem acts_id (s : St) (k : Nat) : s.acts = fun i => if i = k then s.acts k else s.acts i := by
+  funext i; by_cases h : i = k <;> simp [h]
+
+theorem ledger_close {L S : Nat} {s s' : St} {who : Who} {slot : Nat} (hl : Ledger L S s) (h : close s who slot = some s') :
+    Ledger L S s' := by
+  obtain ⟨act, ha, hs, _, ho, rfl⟩ := close_some h
+  refine ledger_of hl _ act.owner slot _ _ ho (by unfold NSLOTS at hs; omega) rfl rfl ?_ ?_ ?_ <;>
+    simp only [setAct, setUser, ha, eLong, eShort, eGlv, addMt_long, addMt_short, addMt_glv] <;> omega
+
+theorem ledger_exec {L S : Nat} {s s' : St} {who : Who} {slot fee x y z paid : Nat} {throw fail : Bool} {o : Outcome}
+    (hl : Ledger L S s) (h : exec s who slot fee throw fail x y z = some (s', o, paid)) : Ledger L S s' := by
+  obtain ⟨act, ha, _, _, hs, _, hcase⟩ := exec_some h
+  have hs8 : slot < 8 := by unfold NSLOTS at hs; omega
+  rcases hcase with ⟨_, _, rfl⟩ | ⟨_, hc⟩
+  · refine ledger_of hl _ 0 slot (s.users 0) _ (by omega) hs8 (users_id s 0) rfl ?_ ?_ ?_ <;>
+      simp only [setAct, ha, eLong, eShort, eGlv] <;> omega
+  · rcases complete_some hc with ⟨_, rfl⟩ | ⟨_, _, _, _, h4, h5, h6, rfl⟩
+    · refine ledger_of hl _ 0 slot (s.users 0)
+        (some { act with state := 1, escLong := 0, escShort := 0, escMt := 0, escGlv := act.escGlv + y }) (by omega) hs8 ?_ ?_ ?_ ?_ ?_
+      · unfold setAct glvIn mintMt; split <;> exact users_id s 0
+      · unfold setAct glvIn mintMt; split <;> rfl
+      all_goals (unfold setAct glvIn mintMt; split <;> simp only [ha, eLong, eShort, eGlv] <;> omega)
+    · refine ledger_of hl _ 0 slot (s.users 0)
+        (some { act with state := 1, escGlv := 0, escLong := act.escLong + y, escShort := act.escShort + z }) (by omega) hs8 ?_ ?_ ?_ ?_ ?_
+      · unfold setAct glvOut burnMt; split <;> exact users_id s 0
+      · unfold setAct glvOut burnMt; split <;> rfl
+      all_goals (unfold setAct glvOut burnMt; split <;> simp only [ha, eLong, eShort, eGlv] <;> omega)
+
+theorem ledger_mdep {L S : Nat} {s s' : St} {u m l sh x : Nat} {f : Bool} (hl : Ledger L S s)
+    (h : mdep s u m l sh f x = some s') : Ledger L S s' := by
+  unfold mdep at h
+  by_cases h0 : u ≥ NUSERS ∨ m ≥ 2
+  · simp [h0] at h
+  · by_cases hc : (l = 0 ∧ sh = 0) ∨ (s.users u).long < l ∨ (s.users u).short < sh ∨ f = true
+    · simp [h0, hc] at h
+    · simp only [h0, hc, if_false, Option.some.injEq] at h
+      have hu : u < 2 := by unfold NUSERS at h0; omega
+      subst h
+      refine ledger_of hl _ u 0 ({ (s.users u) with long := (s.users u).long - l, short := (s.users u).short - sh }.addMt m x)
+        (s.acts 0) hu (by omega) ?_ ?_ ?_ ?_ ?_
+      · unfold setUser mintMt; split <;> rfl
+      · unfold setUser mintMt; split <;> exact acts_id s 0
+      all_goals (unfold setUser mintMt; split <;> simp only [addMt_long, addMt_short, addMt_glv] <;> omega)
+
+/-- a state with the same users, slots, collateral vaults and GLV mint/burn counters keeps the ledger -/
+theorem ledger_same {L S : Nat} {s s' : St} (hl : Ledger L S s) (hu : s'.users = s.users) (ha : s'.acts = s.acts)
+    (h1 : s'.vaultLong = s.vaultLong) (h2 : s'.vaultShort = s.vaultShort) (h3 : s'.glvMinted = s.glvMinted)
+    (h4 : s'.glvBurned = s.glvBurned) : Ledger L S s' := by
+  obtain ⟨l1, l2, l3⟩ := hl
+  unfold totalLong at l1; unfold totalShort at l2; unfold heldGlv at l3
+  refine ⟨?_, ?_, ?_⟩
+  · unfold totalLong; rw [hu, ha, h1]; exact l1
+  · unfold totalShort; rw [hu, ha, h2]; exact l2
+  · unfold heldGlv; rw [hu, ha, h3, h4]; exact l3
+
+theorem ledger_sexec {L S : Nat} {s s' : St} {who : Who} {i fee x paid : Nat} {throw fail : Bool} {o : Outcome}
+    (hl : Ledger L S s) (h : sexec s who i fee throw fail x = some (s', o, paid)) : Ledger L S s' := by
+  obtain ⟨sh, _, _, _, _, _, hcase⟩ := sexec_some h
+  rcases hcase with ⟨_, _, rfl⟩ | ⟨_, _, _, hc⟩
+  · exact ledger_same hl rfl rfl rfl rfl rfl rfl
+  · obtain ⟨_, _, rfl⟩ := scomplete_some hc
+    refine ledger_same hl ?_ ?_ ?_ ?_ ?_ ?_ <;>
+      (unfold setShift glvIn mintMt glvOut burnMt; split <;> split <;> rfl)
+
+/-- THE LEDGER is preserved by every transaction -/
+theorem step_preserves_total {L S : Nat} (s : St) (op : Op) (hl : Ledger L S s) : Ledger L S (step s op).1 := by
+  cases op with
+  | tick dt => exact ledger_same hl rfl rfl rfl rfl rfl rfl
+  | price age => exact ledger_same hl rfl rfl rfl rfl rfl rfl
+  | mdep u m l sh f x =>
+    simp only [step]
+    cases h : mdep s u m l sh f x with
+    | none => exact hl
+    | some s' => exact ledger_mdep hl h
+  | create u k i m a b c soft el =>
+    simp only [step]
+    cases h : create s u k i m a b c soft el with
+    | none => exact hl
+    | some s' => exact ledger_create hl h
+  | exec who slot fee throw fail x y z =>
+    simp only [step]
+    cases h : exec s who slot fee throw fail x y z with
+    | none => exact hl
+    | some r => obtain ⟨s', o, paid⟩ := r; exact ledger_exec hl h
+  | close who slot =>
+    simp only [step]
+    cases h : close s who slot with
+    | none => exact hl
+    | some s' => exact ledger_close hl h
+  | screate who i a b c el =>
+    simp only [step]
+    cases h : screate s who i a b c el with
+    | none => exact hl
+    | some s' =>
+      obtain ⟨_, _, _, _, _, _, _, _, _, rfl⟩ := screate_some h
+      exact ledger_same hl rfl rfl rfl rfl rfl rfl
+  | sexec who i fee throw fail x =>
+    simp only [step]
+    cases h : sexec s who i fee throw fail x with
+    | none => exact hl
+    | some r => obtain ⟨s', o, paid⟩ := r; exact ledger_sexec hl h
+  | sclose who i =>
+    simp only [step]
+    cases h : sclose s who i with
+    | none => exact hl
+    | some s' =>
+      obtain ⟨_, _, _, rfl⟩ := sclose_some h
+      exact ledger_same hl rfl rfl rfl rfl rfl rfl
+
+theorem run_preserves_total {L S : Nat} (ops : List Op) : ∀ (s : St), Ledger L S s → Ledger L S (run s ops).1 := by
+  induction ops with
+  | nil => intro s h; exact h
+  | cons op ops ih => intro s h; simp only [run]; exact ih _ (step_preserves_total s op h)
 
 theorem run_ok (ops : List Op) : ∀ (s : St), RecOK s → SupplyOK s → RecOK (run s ops).1 ∧ SupplyOK (run s ops).1 := by
   induction ops with
